@@ -163,6 +163,12 @@ pub fn read_deviations_on(rep: &mut Report, root: &std::path::Path, prop: &str, 
                 plans.push((cb, format!("{}:{}", k, act), "benign"));
             }
             plans.push((cb, format!("{}:EIO", k), "input-fault"));
+            // a signal in the middle of the run (terminal interrupt, termination request, hang-up, user signal)
+            if prop == "C10" {
+                for sg in ["SIGINT", "SIGTERM", "SIGHUP", "SIGUSR1"] {
+                    plans.push((cb, format!("{}:{}", k, sg), "signal"));
+                }
+            }
             if k + 1 < n1 {
                 plans.push((cb, format!("{}:SHORT1,{}:SHORT1", k, k + 1), "benign"));
                 plans.push((cb, format!("{}:EINTR,{}:SHORTH", k, k + 1), "benign"));
@@ -249,6 +255,15 @@ fn judge(r: &RunResult, reference: &BTreeMap<String, Vec<u8>>, kind: &str, crash
             }
         }
         "benign" => return Some(("benign-deviation-makes-run-fail".into(), format!("exit {:?}: {}", r.code, r.stderr.lines().next().unwrap_or("")))),
+        "signal" => {
+            // the run was ended by (or failed after) a signal: a file under a final name of the undisturbed run must be complete;
+            // files under other final names (a shorter range written by a graceful shutdown) are not judged here
+            for n in &finals {
+                if reference.contains_key(*n) && !complete(n) {
+                    return Some(("signal-leaves-partial-final-named-file".into(), format!("{} exists with {} of {} bytes", n, r.files[*n].len(), reference.get(*n).map(|c| c.len()).unwrap_or(0))));
+                }
+            }
+        }
         _ => {
             // rename / close faults: whatever exists under a final name must be complete
             for n in &finals {
@@ -300,6 +315,41 @@ enum Case {
     /// nobody reads the log any more: stdout (1), stderr (2) or both (3) are pipes whose reading end is closed; alone, or
     /// together with an unreadable block (blk file of height 2 removed)
     Streams { cb: &'static str, which: u8, input_fault: bool },
+    /// merged-mined chains (namecoin / dogecoin: header, AuxPoW section, transactions), one block per blk file, the file of
+    /// `height` cut at byte `cut` - inside the header, the section or the transactions
+    InputAux { coin: &'static str, height: u64, cut: u64 },
+}
+
+/// 4 blocks, one per file; blocks 1..3 carry an AuxPoW section (parent coinbase in legacy form with version 1, version 2 with
+/// two outputs, segwit form)
+fn aux_world(cn: &'static str) -> (World, ChainBuilder) {
+    use refmodel::ser::{AuxPow, Header, TxIn, TxOut, Tx};
+    let c = coin(cn);
+    let mut cb = dependent_chain(c, 0, 4);
+    let thr = c.auxpow_from.unwrap();
+    // rebuild blocks 1..3 with AuxPoW versions (hash links must follow)
+    let mut blocks = vec![cb.blocks[0].clone()];
+    for h in 1..4usize {
+        let old = &cb.blocks[h];
+        let mut b = refmodel::ser::Block::build(thr + h as u32 - 1, blocks[h - 1].hash(), old.header.time, old.header.bits, old.header.nonce, old.txs.clone());
+        let parent_coinbase = match h {
+            1 => refmodel::chain::coinbase(7, 7, vec![refmodel::chain::pay(7, 25)]),
+            2 => Tx { version: 2, segwit: false, inputs: vec![TxIn::coinbase(vec![0x51; 40])], outputs: vec![TxOut { value: 25, script: vec![0x51; 30] }, TxOut { value: 0, script: refmodel::script::op_return(b"aux") }], locktime: 7, wide: 0 },
+            _ => {
+                let mut i = TxIn::coinbase(vec![3, 9, 9, 9]);
+                i.witness = vec![vec![0u8; 32]];
+                Tx { version: 2, segwit: true, inputs: vec![i], outputs: vec![TxOut { value: 25, script: refmodel::script::witness(0, &refmodel::script::h20(9)) }], locktime: 0, wide: 0 }
+            }
+        };
+        b.auxpow = Some(AuxPow { parent_coinbase, parent_hash: [h as u8; 32], coinbase_branch: vec![[0x21; 32]; h], coinbase_mask: 1, chain_branch: vec![[0x22; 32]; h - 1], chain_mask: 0, branch_wide: 0, parent_header: Header { version: 0x2000_0000, prev: [3; 32], merkle: [4; 32], time: 1_500_000_000, bits: 0x1b00ffff, nonce: 5 } });
+        blocks.push(b);
+    }
+    cb.blocks = blocks;
+    let mut w = World::new(c);
+    for (i, b) in cb.blocks.iter().enumerate() {
+        w.add_block(i as u64, i as u64, b);
+    }
+    (w, cb)
 }
 
 pub fn run() -> Report {
@@ -377,6 +427,14 @@ pub fn run() -> Report {
             let _ = thorough;
         }
     }
+    let aux_worlds: BTreeMap<&'static str, (World, ChainBuilder)> = ["namecoin", "dogecoin"].into_iter().map(|cn| (cn, aux_world(cn))).collect();
+    for (cn, (w, _)) in &aux_worlds {
+        for h in 1..4u64 {
+            for cut in 0..w.files[&h].len {
+                cases.push(Case::InputAux { coin: cn, height: h, cut });
+            }
+        }
+    }
     for cb in ["csvdump", "unspentcsvdump", "balances"] {
         for which in 1..=3u8 {
             for input_fault in [false, true] {
@@ -405,6 +463,13 @@ pub fn run() -> Report {
                 cases.push(Case::Output { cb, large: *is_large, plan: format!("{}:{}", c.k, a), kind });
             }
             cases.push(Case::Crash { cb, large: *is_large, k: c.k });
+            // asynchronous events: a signal arrives immediately before this call (terminal interrupt, termination request,
+            // hang-up, a user signal, quit) - whatever the program does with it
+            for sig in ["SIGINT", "SIGTERM", "SIGHUP", "SIGUSR1", "SIGQUIT"] {
+                if !*is_large || thorough || sig == "SIGINT" || sig == "SIGTERM" {
+                    cases.push(Case::Output { cb, large: *is_large, plan: format!("{}:{}", c.k, sig), kind: "signal" });
+                }
+            }
         }
         cases.push(Case::Crash { cb, large: *is_large, k: seq.len() }); // after the last call: normal end
         if !*is_large {
@@ -595,6 +660,37 @@ pub fn run() -> Report {
                         let call = refseq.get(*k).map(|c| format!("{} {}", c.op, c.path)).unwrap_or_else(|| "end".into());
                         let rc = if *lg { json!({"kind": "e1-described", "world": "large", "callback": cb, "crash_before_call": k}) } else { replay_case(world, &spec, json!({"crash_before_call": k}), &r, &wk.dir) };
                         acc.disagree(&sig, format!("{} {} killed before call #{} ({}): {}", cb, if *lg { "large" } else { "small" }, k, call, d), rc);
+                    }
+                }
+                Case::InputAux { coin: cn, height, cut } => {
+                    let (w0, _) = &aux_worlds[cn];
+                    let mut world = w0.clone();
+                    {
+                        let f = world.files.get_mut(height).unwrap();
+                        let mut d = f.dense();
+                        d.truncate(*cut as usize);
+                        f.chunks = vec![(0, d)];
+                        f.len = *cut;
+                    }
+                    let cb = CBS[(*cut % 3) as usize];
+                    let spec = RunSpec::new(cn, cb);
+                    let r = match wk.world_run(&world, &spec) {
+                        Ok(r) => r,
+                        Err(m) => return acc.machinery(m),
+                    };
+                    acc.count("input:truncated-merged-mined-block", 1);
+                    let finals: Vec<&String> = r.files.keys().filter(|k| !k.ends_with(".tmp")).collect();
+                    let bad = if r.code == Some(0) {
+                        Some(("input-fault-not-detected".to_string(), format!("exit 0 although block {} cannot be read; files {:?}", height, r.files.keys().collect::<Vec<_>>())))
+                    } else if !finals.is_empty() {
+                        Some(("final-named-file-after-failed-run".to_string(), format!("{:?}", finals)))
+                    } else if r.error_height() != Some(*height) {
+                        Some(("input-fault-reported-at-wrong-height".to_string(), format!("stderr names {:?}, the unreadable block is {}: {}", r.error_height(), height, r.stderr.lines().next().unwrap_or(""))))
+                    } else {
+                        None
+                    };
+                    if let Some((sig, d)) = bad {
+                        acc.disagree(&format!("{}:truncated-merged-mined-block", sig), format!("{:?} {}: {}", c, cb, d), replay_case(&world, &spec, json!({"must": "fail at this height, no final-named file"}), &r, &wk.dir));
                     }
                 }
                 Case::Fsize { cb, limit } => {
